@@ -1,5 +1,6 @@
 import Lc.Driver.Util
 import Lc.Model.StageList
+import Lc.Model.StageLinks
 import Lc.Spec.Stage
 
 /-!
@@ -61,6 +62,75 @@ def getStep (j : Json) : Step :=
   | "exclude" => .exclude
   | "closure" => .closure
   | _ => .fail
+
+/-! ### the walk of `RecoverMissingLinks`, run by the model on the recorded build root -/
+
+/-- one lstat record with `path.Dir` and `path.Base` of its (symbolic) path -/
+structure FsRec where
+  key : Bytes
+  dir : Bytes
+  base : Bytes
+  st : Lstat
+
+/-- the build root as the tree the walk sees: the children of a directory are the records
+    whose `path.Dir` is its path.  The records come sorted by path (bytewise), so the children
+    stand in byte order of their names — the order the harness's `walkLinks` uses
+    (`sort.Strings`); the order of the real `Readdirnames` is that of getdents64 and does not
+    matter for the resulting set (`Lc.Props.C06Links.recovered_exactly`).  Records for paths
+    through a symbolically linked directory (looked up by the harness while it followed a
+    chain) hang below a record that is not a directory and are never reached. -/
+def buildNode (recs : List FsRec) : Nat → Bytes → Lstat → Node
+  | 0, _, _ => .other
+  | fuel + 1, p, st =>
+    let t := st.mode &&& S_IFMT
+    if t = S_IFLNK then .symlink st.link
+    else if t = S_IFDIR then
+      .dir ((recs.filter fun r => r.dir == p && r.key != p).map fun r =>
+        (r.base, buildNode recs fuel r.key r.st))
+    else if t = S_IFREG then .file
+    else .other
+
+def buildRoot (tbl : List (Bytes × Lstat)) : Node :=
+  let recs := tbl.map fun kv => ({ key := kv.1, dir := pathDir kv.1, base := pathBase kv.1, st := kv.2 } : FsRec)
+  match lookupFs tbl rootSym with
+  | some st => buildNode recs (tbl.length + 1) rootSym st
+  | none => .other
+
+def candEq (a b : Cand) : Bool := a.name == b.name && a.target == b.target && a.tooLong == b.tooLong
+
+def candsEq : List Cand → List Cand → Bool
+  | [], [] => true
+  | a :: as, b :: bs => candEq a b && candsEq as bs
+  | _, _ => false
+
+def sameMap : Res EMap → Res EMap → Bool
+  | .ok a, .ok b => a == b
+  | .error f, .error g => f == g
+  | _, _ => false
+
+/-- (the model's candidate list on the recorded tree equals the harness's, the model's walk
+    with the member map of that point of the step list equals `recoverAll` on the harness's
+    candidates).  A case without a recover step (no expansion took place) passes. -/
+def linksCheck (j : Json) : Bool × Bool :=
+  let (env, tbl) := getEnv j
+  let steps := (getArr j "steps").map getStep
+  let isRecover := fun (s : Step) => match s with | .recover _ => true | _ => false
+  match steps.find? isRecover with
+  | some (.recover hc) =>
+    let tree := buildRoot tbl
+    let mine := candidates env tree
+    let pre := steps.takeWhile (fun s => !isRecover s)
+    let walkOK := match runSteps env {} pre with
+      | .ok s => sameMap (recoverMissingLinks env tree s.map) (recoverAll env s.map hc)
+      | .error _ => true
+    (candsEq mine hc, walkOK)
+  | _ => (true, true)
+
+/-- the reply fields of that comparison; `harness_ok` only when it fails -/
+def linksFields (j : Json) : List (String × Json) :=
+  let (a, b) := linksCheck j
+  [("links_model_eq", Json.bool a), ("links_walk_eq", Json.bool b)] ++
+    (if a && b then [] else [("harness_ok", Json.bool false)])
 
 def typeChar (t : Nat) : String :=
   if t = tyDir then "d" else if t = tyReg then "f" else if t = tySymlink then "l"
@@ -144,8 +214,8 @@ def handle (op : String) (j : Json) : Option Json :=
     let impl := getObj j "impl"
     let cls := getStr impl "cls"
     if cls != "ok" then
-      some (obj [("model", model), ("holds", Json.bool true), ("trivial", Json.bool true),
-                 ("tags", Json.arr #[Json.str ("cls:" ++ cls)])])
+      some (obj ([("model", model), ("holds", Json.bool true), ("trivial", Json.bool true),
+                 ("tags", Json.arr #[Json.str ("cls:" ++ cls)])] ++ linksFields j))
     else
       let (v, missing, extra) := judge j impl
       let ms := getMems impl
@@ -157,12 +227,12 @@ def handle (op : String) (j : Json) : Option Json :=
         (if cats.novdb then ["novdb"] else []) ++ (if cats.emptydev then ["emptydev"] else []) ++
         (if cats.excluded.any (fun n => cats.magic.contains n || cats.sel.contains n) then ["excluded-hit"] else []) ++
         (if cats.cands.any (fun c => !cats.sel.contains c.1 && cats.sel.contains c.2) then ["link-recovered"] else [])
-      some (obj [("model", model), ("holds", Json.bool v.all),
+      some (obj ([("model", model), ("holds", Json.bool v.all),
                  ("verdict", obj [("dot_relative", Json.bool v.dotRel), ("unique", Json.bool v.unique),
                     ("parents_precede", Json.bool v.parents), ("hardlinks", Json.bool v.hardlinks),
                     ("membership", Json.bool v.membership), ("list_eq", Json.bool v.listEq),
                     ("missing", jbs (missing.take 8)), ("extra", jbs (extra.take 8))]),
-                 ("tags", Json.arr (tags.map Json.str).toArray)])
+                 ("tags", Json.arr (tags.map Json.str).toArray)] ++ linksFields j))
   | _ => none
 
 end Lc.Driver.C06
